@@ -552,6 +552,30 @@ _more("C09",
       "the model theorem c09_trace_shift (the same statement about ftrace of the model) is not proved yet at this commit: the trace-shift "
       "clause is decided by the metamorphic run on the implementation (testing) plus the arithmetic theorems.",
       "Coq proof (lia over mod 2^16) + row-exhaustive correspondence + metamorphic relabelling runs judged by an extracted predicate")
+_more("C09",
+      "MODEL THEOREM of the trace-shift clause (Conn/C09_Shift.v, Conn/C09_ShiftProofs*.v): shift_vsock da db dc relabels every "
+      "sequence-number-valued field of the connection state (seq_nr, last_sent_seq_nr, snd_una, recovery point / high_rxt, the ack number "
+      "remembered for duplicate counting, FIN numbers in the state, ack numbers of queued messages by da; last_consumed, last_sent_ack_nr, "
+      "the remote FIN number, sequence numbers of queued messages by db; conn_id_send by dc), shift_op the delivered message, shift_vout the "
+      "emitted packets. c09_vstep_shift: vstep (shift s) (shift o) = shift (vstep s o) for EVERY state and event satisfying the boolean "
+      "guard c09_guard_vstep; c09_ftrace_shift / c09_model_trace_shift_ok / c09_model_runs_shift_ok: for every op list satisfying "
+      "c09_guard_trace the trace of the relabelled run is the relabelled trace and the extracted c09_shift_ok holds of the two model "
+      "traces (from vsock_new of the two parameter sets). Proved bottom-up: seq_sub/seq_gt (c09_seq_sub_shift), Segments "
+      "(remove_up_to_ack, calc_flight_size, iter_for_sending, calc_pipe), Recovery::on_ack, state_table, process_incoming_message, "
+      "recv loop, send_data, the recovery and new-data loops, send_tx_queue, split_tx_queue_into_segments, poll_body, the restart loop. "
+      "The guard is dynamic: it follows the step (running the model's own functions for the intermediate states) and asks, at each "
+      "wrap-tolerant comparison, that both operands are u16 values at true modular distance <= WRAP_TOLERANCE, and at each equality test "
+      "that both are u16 values; the atomic condition is tight (c09_seq_sub_shift_tight). Non-vacuity: c09_guard_satisfiable (a scenario "
+      "wrapping both numberings with out-of-order data, an RTO, a SACK fast recovery and both FINs). Outside the guard the clause is FALSE "
+      "of the model: c09_shift_outside_guard_refuted (two segments outstanding at snd_una 65534, ACK number 30000: ignored; relabelled by "
+      "10 it acknowledges everything) - class D4. c09_guard_trace_shift: the guard does not depend on the labelling (the relabelled "
+      "scenario is inside it as well).",
+      "the guard of the theorem (c09_guard_trace) needs the model state, not only the fingerprint; it can be evaluated on the inputs of a "
+      "metamorphic case by the extracted model (c09_guard_trace_cubic, not yet registered in the driver). The fingerprint-level guard "
+      "c09_within_tol used by the check is NOT proved to imply it (needs bounds on how far the numbers move inside one poll: open); "
+      "c09_within_tol_shift shows it judges both runs alike.",
+      "Coq proof (lia over mod 2^16; commutation of the whole connection model with the relabelling, by layers) + row-exhaustive "
+      "correspondence + metamorphic relabelling runs judged by an extracted predicate")
 _more("C10",
       "WHOLE-POLL THEOREMS (Conn/VSock_Poll*.v, 2400 lines): the strengthened joint invariant vs_x (vs_inv + per-segment send-time and "
       "MTU-probe facts + clock range) is preserved by process_incoming_message, recv_loop, process_all_incoming_messages, poll_body, the "
@@ -593,6 +617,129 @@ _more("C19",
       "waker identity: the harness polls every application call under a FRESH waker (util::WakerSet); a wake-up that reaches only a waker "
       "older than the last parked call's is reported as stale and disagrees with the model - a writer that was re-polled under another "
       "waker while the buffer is full must be woken through THAT waker when acknowledgements free space.")
+
+# ----------------------------------------------------------------------------- session 5
+_S5_CONC = ("SESSION 5: the atomicity assumption behind the component theorems (each method of the shared halves is atomic) is now "
+            "VALIDATED on every run by two-thread components on the real objects: txconc (writer thread against grow / truncate_front / "
+            "look-at-the-ring: nothing lost, nothing out of place, capacity within the limit) and rxconc (reader thread against add_remove / "
+            "flush, both sides really parked on their wakers, tiny buffers; a state with both parked and no wake-up pending is decided under "
+            "one mutex). Catches seeded C01-b (producer lock taken only for the swap in UserTx::grow), which no single-threaded check can see.")
+_more("C01", _S5_CONC + " Pair->data-path refinement (branch pw-c01, merged if present in Props/C01.v: c01_pair_step_refines_dp, "
+      "c01_pair_trace_refines_dp, c01_prefix_pair_trace_partial under `direction live`). Defect D6 (FIN's sequence number re-used by the "
+      "re-cut part of an MTU probe: written bytes never sent, Ready(Ok)) repaired in /repo 4d912d4 + f62adfc.")
+_more("C19", _S5_CONC)
+_more("C04", _S5_CONC + " New trace predicate c04_consumed_honest_ok (the number the endpoint WOULD acknowledge is honest after every event, "
+      "not only on emitted datagrams); teardown scenarios of C17 added to the vsock_ack generators; catches seeded C04-b with a concrete input.")
+_more("C02", "SESSION 5: wake-ups under TRUE concurrency: components rxconc / txconc (two OS threads, really parked on their wakers; exact "
+      "deadlock detection) validate the atomicity assumption the wake-up theorems rest on. Defect D6 (part of C02's FIN promptness too) repaired.")
+_more("C05", "SESSION 5 (Conn/C05_Step*.v, Props/C05.v): the extracted predicates are now THEOREMS of every model step and every trace from "
+      "vsock_new: c05_rto_single_ok (no hypothesis), c05_zero_window_ok_open and c05_zero_window_strict_or_d16_open (polls that end open), "
+      "c05_window_ok2 (window clause over the WHOLE list of ST_DATA of a poll, under the observable guard c05_win_guard: poll ends open, timer "
+      "not expired at its start, counter 0 and not recovering afterwards, <= 960 segments, last_sent within 1024 of the left edge), "
+      "c05_rto_exit_ok2 (the counter leaves RTO mode only if bytes were removed, a segment became delivered, or an MTU-probe expiry was due), "
+      "c05_monitor_core_ok; c05_slow_start_window_bound_partial for any controller satisfying the interface hypothesis cc_ss_ok, and "
+      "c15_slow_start_cumulative shows CUBIC's byte window stays <= 2*mss_max + acked bytes (<= 2^18 ops, < 2^32 bytes). FOUND: the "
+      "original c05_window_ok had a pattern defect (`p1 :: _ as data` binds the tail: the first ST_DATA was left out of the sum) - replaced; "
+      "c05_rto_exit_ok and c05_zero_window_ok are FALSE of the model as written (c05_rto_exit_ok_b6_refuted, "
+      "c05_zero_window_ok_closed_refuted, witnesses by vm_compute) - replaced by the proved forms. Still monitored only: "
+      "c05_slow_start_ok on traces, the never-sent-suffix clause of c05_monitor_ok.")
+_more("C06", "SESSION 5: generator gen_sacked_probe (the newest segment is an MTU probe, the peer acknowledges it selectively while the "
+      "segment before it is lost, then the retransmission timer fires): C06 catches seeded C06-b / C14-b (a selectively acknowledged probe is "
+      "given up and re-cut) with a concrete input through c06_no_resend_acked. Step/trace theorems for the C06 predicates: branch pw-c06 "
+      "(see Props/C06.v for what is merged).")
+_more("C07", "SESSION 5 (Conn/C07_Step.v, C07_Trigger*.v, C07_Dist.v, Props/C07.v, 35 theorems): c07_idle_silent_partial is now a THEOREM of "
+      "every model trace (c07_idle_silent_every_trace; the name is kept, it is no longer partial); the trigger side is proved: "
+      "c07_pim_trigger / c07_pim_status (a FIN, a duplicate, an arrival while the reassembly queue holds data, a change of the queue's "
+      "empty/non-empty status force the ACK or send it on the spot), c07_poll_trigger / c07_poll_status (a completed poll then emitted a "
+      "datagram), predicates c07_trigger_ok, c07_reasm_change_ok proved for every trace and evaluated on implementation traces. "
+      "c07_pre_monitor is FALSE beyond the wrap tolerance (c07_pre_monitor_refuted: 1030 one-byte packets across the wrap inside one ACK delay "
+      "make ack_to_transmit read `nothing to acknowledge`; D4 class) - replaced by the exact invariant c07_dist_ok (last_consumed = "
+      "last_sent_ack_nr + k mod 2^16, k <= unacknowledged bytes) and c07_pre_monitor_g, both theorems of every trace.")
+_more("C08", "SESSION 5 (Conn/C08_Step.v): c08_deadline_ok is a THEOREM of every step and trace (no hypothesis); new c08_fires_ok (a poll at or "
+      "after the armed deadline with an empty inbox and a non-blocking transport ends the task) proved for every trace and evaluated on "
+      "implementation traces; c08_silence_ends. Open: termination against a peer that keeps the inactivity timer alive, and a transport that "
+      "blocks forever.")
+_more("C09", "SESSION 5 (Conn/C09_Shift.v, C09_ShiftProofs*.v, 22 new theorems): the TRACE-SHIFT clause is a closed theorem on the connection "
+      "model: c09_vstep_shift (vstep (shift s) (shift o) = shift (vstep s o) for EVERY state and event inside the dynamic guard "
+      "c09_guard_vstep: every wrap-tolerant comparison the step makes has u16 operands at true modular distance <= WRAP_TOLERANCE), "
+      "c09_ftrace_shift, c09_model_runs_shift_ok (the extracted c09_shift_ok holds of the two model runs), layer theorems for Segments, "
+      "Recovery, state_table, process_incoming_message, send_tx_queue, split, poll; c09_guard_satisfiable (both numberings wrap inside a "
+      "transfer with RTO, SACK recovery, both FINs); c09_shift_outside_guard_refuted (D4). The metamorphic component is now judged under the "
+      "theorem's guard (vsock_shift_g). Open: a static guard on the fingerprint (c09_within_tol => c09_guard_trace).")
+_more("C10", "SESSION 5 (Sock/DispHostile*.v, 26 theorems): the SOCKET half is proved on the dispatcher model composed with the wire parser, "
+      "over every byte list / every raw op list: c10_disp_total (parse then HandleRecv never panics; garbage changes nothing at all), "
+      "c10_disp_effect_exact / c10_disp_isolation (a datagram is forwarded only to its own key, every other entry is untouched, at most one "
+      "entry / queued SYN / reset / completed connect), c10_disp_bounded (table, backlog <= 32, acceptors, <= 4 pending connects per address), "
+      "c10_disp_live_connection_unaffected, c10_disp_not_wedged_*. The extracted predicates c10_disp_step_ok / c10_disp_bounds_ok are proved; "
+      "their evaluation on implementation traces is not wired yet (the disp_hostile correspondence runs).")
+_more("C11", "SESSION 5 (Conn/C11_*.v, Sock/DispC11_*.v, 19 theorems): the connection-level clause is proved: every datagram the connection "
+      "model emits (c11_emitted_ok_every_step / _every_trace) and every SYN / RESET the dispatcher model emits (c11_disp_emitted_ok_*) is "
+      "well-formed, version 1, carries the connection id owed to that direction, payload iff ST_DATA, SACK of 64 bits, and parses back to "
+      "itself (c11_packet_ok_on_the_wire); a connection itself emits only ST_DATA / ST_FIN / ST_STATE; a RESET answers the SYN it refuses. "
+      "Extracted and evaluated on implementation traces (components vsock_wire, disp_wire). Boundary found: on_maybe_connect_ack matches a "
+      "SYN-ACK by (address, ack_nr) only, the id it carries is not checked (c11_disp_syn_ack_conn_id_unchecked_refuted, reproduced).")
+_more("C14", "SESSION 5 (Conn/C14_Step*.v): c14_segments_ok, c14_datagram_ok and the new c14_wire_ok (whole uTP datagram <= 20 + ceiling; a "
+      "datagram with the SACK extension has no payload) are THEOREMS of every model step and trace from vsock_new (joint invariant c14_inv; "
+      "no hypothesis on transport, peer or clock); generator gen_sacked_probe added (seeded C14-b).")
+_more("C15", "SESSION 5 (Cubic/Cubic_Bytes_Proofs.v, 9 theorems): the byte-level slow-start bound is proved and exact: window' <= window + len + 1 "
+      "(c15_slow_start_bytes, reachable form c15_slow_start_bytes_reachable); c15_reachable_state_invariant (cwnd / ssthresh never NaN or "
+      "negative on any reachable state, whatever cbrt / powf return); ssthresh after loss within 1 byte of 0.7 * window; "
+      "c15_set_mss_chain_bytes (MSS changes rescale, never reset); c15_model_trace_fine_ok: EVERY clause of c15_obs_ok holds on every model "
+      "trace whose runs of consecutive set_mss are <= 65536 long (without that bound the +-1 byte clause drifts: witness of 3.4 million MSS "
+      "changes, -2 bytes, reproduced on the real code); c15_obs_ok_b (unconditional form) is evaluated first.")
+_more("C17", "SESSION 5: defect D6 - an MTU probe given up AFTER our FIN was numbered behind it is re-cut and the second part takes the FIN's "
+      "sequence number: written bytes are never sent and the poll returns Ready(Ok) (silent truncation) - found by the proof of c17_fin_seq_ok "
+      "(refutation witness), reproduced on the real code, repaired in /repo (4d912d4: no expiry pop once the FIN is numbered; f62adfc: an "
+      "unacknowledged probe counts as unsent data, so the FIN is not numbered behind it - the EMSGSIZE pop path) and in the model; "
+      "c17_peer_fin_ok refuted as written and corrected (c17_peer_fin_ok2); scripted close-first teardown scenarios (catches seeded C03-b). "
+      "Trace theorems of branch pw-c17: see Props/C17.v for what is merged.")
+_more("C03", "SESSION 5: defect D6 (clean EOF 463 bytes short after Ready(Ok)) repaired; scripted teardown scenarios (seeded C03-b: an "
+      "out-of-sequence FIN honoured in FinWait2 - caught by C17 with a concrete input and by C03's correspondence).")
+_more("C18", "SESSION 5 (Conn/C18_Step*.v, 23 theorems): ALL clauses are theorems of every model step and trace of a WHOLE poll: "
+      "c18_nagle_ok_every_trace, c18_off_all_segmented_every_trace (Nagle off, no undelivered probe before the poll, buffer non-empty: "
+      "everything is segmented or the peer window was the limit), c18_drain_sends_every_trace, c18_buffered_segmented_every_trace; the guard "
+      "c18_pre is a proved invariant (table invariant TI); c18_off_probe_guard_is_needed (witness). The PARTIAL remarks above are superseded.")
+
+# ----------------------------------------------------------------------------- session 5, second half
+CHECKS["C10"]["text"] = CHECKS["C10"]["text"].replace(
+    "their evaluation on implementation traces is not wired yet (the disp_hostile correspondence runs).",
+    "extracted and evaluated on the implementation's own observations (component disp_hostile: c10_disp_step_ok on every run_once whose "
+    "recv arm fired - about 12 800 steps / 1370 cases at quick tier, 3100 of them raw datagrams, 2100 garbage - c10_disp_bounds_ok on "
+    "every state; an ERR or PANIC of run_once is a failure).")
+_more("C13", "SESSION 5 (Sock/DispC13_*.v): c13_pending_ok - every pending connect is accounted for, slot by slot: a step fills exactly one "
+      "empty slot at the address of the single SYN it sent, or frees exactly one occupied slot (control / recv step that sent no SYN), or "
+      "refuses with four pending, or moves nothing; at most one address changes - THEOREM of every model step and every op list "
+      "(c13_pending_ok_every_step / _every_op_list, hypothesis d_inv only, an invariant), extracted and evaluated on the implementation's "
+      "snapshots (component disp_pending, generator gen_pending: two to four connects to one address, the earliest leaves first, then "
+      "more connects - the scenario of seeded C13-b, which overwrites a still-pending connect).")
+_more("C17", "SESSION 5, second half (Conn/C17_Trace*.v, C17_Pred2.v): c17_peer_fin_ok2 (corrected peer-FIN clause) THEOREM of every trace from "
+      "vsock_new, c17_peer_fin_guarded_trace, c17_peer_fin_oos_poll / _inseq_poll; regression theorems c17_fin_seq_regression / "
+      "c17_fin_covers_data_regression on the four D6 witnesses; new step predicate c17_fin_covers_data_ok (the only one that sees the "
+      "byte-loss variant of D6) evaluated on every implementation trace. c17_fin_seq_ok / c17_fin_covers_data_ok for EVERY trace: open.")
+_more("C04", "SESSION 5, second half (Conn/C04_Guard.v, C04_Step.v, C04_Consumed.v): c04_vsock_ack_guarded_trace and "
+      "c04_consumed_honest_guarded_trace - the two connection-level predicates are THEOREMS of every trace under the boolean guard "
+      "c04_peer_ok (at most WRAP_TOLERANCE sequence-carrying packets; no ST_DATA numbered at or above an ST_FIN the peer delivers); "
+      "c04_vsock_ack_or_d22_trace. FOUND (reproduced on the real code, open known finding D22): after the peer's FIN, data numbered beyond "
+      "the FIN that sat in the reassembly queue is counted and the ACK number overstates - hostile peer only. The check evaluates the "
+      "guarded predicates and replays the D22 witness.")
+_more("C01", "SESSION 5, second half (Pair/Pair_Refine*.v, 3000 lines): the pair -> data-path refinement is proved for EVERY pair step kind "
+      "(c01_poll_is_data_events, c01_pair_step_refines_dp, c01_pair_trace_refines_dp); c01_prefix_pair_trace_partial / "
+      "c01_dir_ok_pair_trace_partial: on every pair trace along which the direction stays live (reader not finished, peer FIN not accepted) "
+      "and under the data-path guards the prefix property and the extracted check hold. FOUND: c01_pair_guarded is FALSE "
+      "(c01_pair_guarded_refuted, reproduced on the real code: B reads 2047 of 1980 bytes) on a KF1-family trace the old classifier missed "
+      "(probe delivered, its ACK delayed, the RTO poll pops and re-cuts the probe while the transport is pending, the late ACK acknowledges "
+      "the never-sent re-cut segment) - the check now uses the widened class c01_kf1_class2 / c01_pair_guarded2 (pop seen on the sender's "
+      "fingerprints + a delivery of the popped probe).")
+_more("C06", "SESSION 5, second half (Conn/C06_Step2*.v): c06_rp_exit_ok is a THEOREM of every model trace (no hypothesis); "
+      "c06_stable_plen_ok_p (within one EMSGSIZE-free poll the same sequence number carries the same payload size unless it was a probe) "
+      "THEOREM of every trace and evaluated; the cross-poll guarded form c06_stable_plen_ok_g is proved under the open hypothesis SMH only.")
+_more("C02", "SESSION 5, second half: pair-tier component pair_settle - two real endpoints, a lossy phase (acknowledgements are what gets lost "
+      "most; no segment can use up its retransmission budget), then a settle phase in which every datagram is delivered for 34 s of "
+      "virtual time: the extracted c02_pair_settled_ok requires that no endpoint gave up and that each application read exactly what the "
+      "other was told was accepted (MONITORED: eventual delivery is not a theorem). FOUND (open known finding D23): there is no zero-window "
+      "probe / persist timer - when the peer's single window-update ACK is lost the sender stalls for good although the network delivers "
+      "everything from then on (classifier: the stalled writer ends with last_remote_window = 0). Step/trace theorems of branch pw-c02 "
+      "(c02_prompt write half, ...): see Props/C02.v.")
 
 ALL = ["C%02d" % i for i in range(1, 20)]
 NOT_APPLICABLE = {p: "check not built yet at this commit (planned: DESIGN.md section 6); not claimed"
